@@ -1,8 +1,11 @@
 // Driver for the Zipf generators (C06, C19).  No scheduler is needed; the program links the harness
 // runtime only for the shim symbols.  Output: ndjson records for ZipfTrace / ZipfAbsTrace.
+#include <atomic>
+#include <chrono>
 #include <cinttypes>
 #include <cmath>
 #include <cstring>
+#include <memory>
 #include <mutex>
 #include <random>
 #include <thread>
@@ -266,6 +269,22 @@ Purity(const char *cls, T mn, T mx, double alpha, uint64_t seed, int len, int nt
   m2 = std::move(d);
   Seq<Gen, T>(m2, cls, mn, mx, alpha, "move-assigned", seed, len);
   Seq<Gen, T>(a, cls, mn, mx, alpha, "orig-after-copies", seed, len);
+  {
+    // a copy must not depend on its source: the source is re-assigned / destroyed while the copy is still in use
+    auto src = std::make_unique<Gen>(mn, mx, alpha);
+    Gen cp{*src};
+    Gen cp2{};
+    cp2 = *src;
+    *src = Gen{mn, static_cast<T>(mn + (mx - mn) / 2), alpha + 0.75};
+    Seq<Gen, T>(cp, cls, mn, mx, alpha, "copy-source-reassigned", seed, len);
+    src.reset();
+    std::vector<std::unique_ptr<Gen>> churn;   // reuse the freed memory
+    for (int k = 0; k < 4; ++k) churn.emplace_back(std::make_unique<Gen>(mn, mx, alpha + 1.5 + k));
+    Seq<Gen, T>(cp, cls, mn, mx, alpha, "copy-source-destroyed", seed, len);
+    Seq<Gen, T>(cp2, cls, mn, mx, alpha, "copy-assigned-source-destroyed", seed, len);
+    Gen mv{std::move(cp)};
+    Seq<Gen, T>(mv, cls, mn, mx, alpha, "moved-copy-source-destroyed", seed, len);
+  }
   // one const generator shared by threads with private engines
   const Gen &shared = a;
   std::vector<std::thread> th;
@@ -320,6 +339,39 @@ GridC19Cons()
     }
 }
 
+// several threads construct generators with equal parameters at the same time and sample at once: every one of them is
+// the same function as a generator built alone
+template <class Gen, class T>
+void
+ConcurrentConstruction(const char *cls, T mn, T mx, double alpha, uint64_t seed, int len, int nthreads)
+{
+  {
+    Gen solo{mn, mx, alpha};
+    Seq<Gen, T>(solo, cls, mn, mx, alpha, "built-alone", seed, len);
+  }
+  std::atomic<int> ready{0};
+  std::vector<std::thread> th;
+  for (int t = 0; t < nthreads; ++t) {
+    th.emplace_back([&, t] {
+      ++ready;
+      while (ready.load() < nthreads) {}
+      if (t % 2) {  // staggered starts (busy wait: the shim turns sleeps into scheduler notifications)
+        const auto until = std::chrono::steady_clock::now() + std::chrono::microseconds(200 * t);
+        while (std::chrono::steady_clock::now() < until) {}
+      }
+      try {
+        Gen g{mn, mx, alpha};
+        Seq<Gen, T>(g, cls, mn, mx, alpha, "built-concurrently", seed, len);
+      } catch (const std::exception &) {
+        std::lock_guard lk(log_mu);
+        fprintf(out, "{\"e\":\"samp\",\"cls\":\"%s\",\"ty\":\"%s\",\"min\":\"%s\",\"max\":\"%s\",\"alpha\":\"%.17g\",\"who\":\"built-concurrently\",\"seed\":%" PRIu64 ",\"k\":0,\"v\":\"threw\"}\n",
+                cls, TyName<T>(), Dec(mn).c_str(), Dec(mx).c_str(), alpha, seed);
+      }
+    });
+  }
+  for (auto &x : th) x.join();
+}
+
 template <class T>
 void
 GridC19(std::mt19937_64 &rng, bool thorough)
@@ -337,6 +389,10 @@ GridC19(std::mt19937_64 &rng, bool thorough)
       Purity<ZipfDistribution<T>, T>("Z", mn, mx, a, seed, len, nthreads);
       Purity<ApproxZipfDistribution<T>, T>("A", mn, mx, a, seed, len, nthreads);
     }
+  for (int rep = 0; rep < (thorough ? 6 : 2); ++rep) {
+    ConcurrentConstruction<ZipfDistribution<T>, T>("Z", static_cast<T>(1), static_cast<T>(1500000 + rep), 0.9, rng(), len, nthreads);
+    ConcurrentConstruction<ApproxZipfDistribution<T>, T>("A", static_cast<T>(1), static_cast<T>(30000000 + rep), 0.9, rng(), len, nthreads);
+  }
 }
 // ---- C18 ------------------------------------------------------------------------------------------
 // CDF tables of the exact and the approximate class for one parameter tuple, as fixed-point integers TLC can compare:
@@ -387,7 +443,7 @@ Table(T mn, long n, double alpha, int alpha10, bool with_exact, const std::vecto
       sa += c + std::to_string(Q(ap.GetCDF(static_cast<T>(ks[i])), 30));
     }
   }
-  fprintf(out, "{\"e\":\"tab\",\"ty\":\"%s\",\"min\":\"%s\",\"n\":%ld,\"alpha\":\"%.17g\",\"a10\":%d,\"hasex\":%d,\"ks\":%s],\"ex\":%s],\"ap\":%s],\"ex13\":%s],\"exq\":%s],\"apq\":%s]}\n",
+  fprintf(out, "{\"e\":\"tab\",\"ty\":\"%s\",\"min\":\"%s\",\"n\":%ld,\"alpha\":\"%.17g\",\"a100\":%d,\"hasex\":%d,\"ks\":%s],\"ex\":%s],\"ap\":%s],\"ex13\":%s],\"exq\":%s],\"apq\":%s]}\n",
           TyName<T>(), Dec(mn).c_str(), n, alpha, alpha10, with_exact, sk.c_str(), se.c_str(), sa.c_str(), s13.c_str(), qe.c_str(), qa.c_str());
 }
 
@@ -395,12 +451,14 @@ template <class T>
 void
 GridC18(std::mt19937_64 &rng, bool thorough)
 {
-  std::vector<int> a10s = {0, 5, 10, 15, 20, 30};
-  if (thorough) a10s.insert(a10s.end(), {1, 3, 8, 9, 12, 25, 40, 80});
+  // alpha in hundredths: the grid straddles 1 (where the approximation switches formulas) and reaches exponents whose tail
+  // terms vanish in double precision
+  std::vector<int> a10s = {0, 50, 96, 100, 104, 150, 200, 300, 800, 2000};
+  if (thorough) a10s.insert(a10s.end(), {10, 30, 80, 90, 99, 101, 110, 120, 250, 400, 4000});
   std::vector<long> small = {1, 2, 3, 4, 5, 7, 8, 12, 16, 50, 99, 100, 101};
   if (thorough) small.insert(small.end(), {6, 9, 10, 11, 13, 14, 15, 33, 64, 128, 129, 300});
   for (int a10 : a10s) {
-    const double alpha = a10 / 10.0;
+    const double alpha = a10 / 100.0;
     for (long n : small) {
       std::vector<long> ks;
       for (long k = 0; k < n; ++k) ks.push_back(k);
